@@ -327,34 +327,31 @@ fn now() -> u128 {
 
 fn bucket_entries(bucket: &Path) -> std::io::Result<Vec<SerializableMetadata>> {
     use std::io::{BufRead, BufReader};
-    fs::File::open(bucket)
-        .map(|file| {
-            BufReader::new(file)
-                .lines()
-                // A line that is not valid UTF-8 is a damaged entry like any
-                // other: skip it and keep reading, as the async reader does.
-                .take_while(|line| match line {
-                    Ok(_) => true,
-                    Err(e) => e.kind() == ErrorKind::InvalidData,
-                })
-                .filter_map(std::result::Result::ok)
-                .filter_map(|entry| {
-                    let entry_str = match entry.split('\t').collect::<Vec<&str>>()[..] {
-                        [hash, entry_str] if hash_entry(entry_str) == hash => entry_str,
-                        // Something's wrong with the entry. Abort.
-                        _ => return None,
-                    };
-                    serde_json::from_str::<SerializableMetadata>(entry_str).ok()
-                })
-                .collect()
-        })
-        .or_else(|err| {
-            if err.kind() == ErrorKind::NotFound {
-                Ok(Vec::new())
-            } else {
-                Err(err)?
-            }
-        })
+    let file = match fs::File::open(bucket) {
+        Ok(file) => file,
+        Err(err) if err.kind() == ErrorKind::NotFound => return Ok(Vec::new()),
+        Err(err) => return Err(err),
+    };
+    let mut vec = Vec::new();
+    for line in BufReader::new(file).lines() {
+        let entry = match line {
+            Ok(entry) => entry,
+            // A line that is not valid UTF-8 is a damaged entry like any
+            // other: skip it and keep reading, as the async reader does.
+            Err(err) if err.kind() == ErrorKind::InvalidData => continue,
+            // Anything else means the bucket could not be read.
+            Err(err) => return Err(err),
+        };
+        let entry_str = match entry.split('\t').collect::<Vec<&str>>()[..] {
+            [hash, entry_str] if hash_entry(entry_str) == hash => entry_str,
+            // Something's wrong with the entry. Abort.
+            _ => continue,
+        };
+        if let Ok(serialized) = serde_json::from_str::<SerializableMetadata>(entry_str) {
+            vec.push(serialized);
+        }
+    }
+    Ok(vec)
 }
 
 #[cfg(any(feature = "async-std", feature = "tokio"))]
@@ -372,15 +369,21 @@ async fn bucket_entries_async(bucket: &Path) -> std::io::Result<Vec<Serializable
     let mut lines =
         crate::async_lib::lines_to_stream(crate::async_lib::BufReader::new(file).lines());
     while let Some(line) = lines.next().await {
-        if let Ok(entry) = line {
-            let entry_str = match entry.split('\t').collect::<Vec<&str>>()[..] {
-                [hash, entry_str] if hash_entry(entry_str) == hash => entry_str,
-                // Something's wrong with the entry. Abort.
-                _ => continue,
-            };
-            if let Ok(serialized) = serde_json::from_str::<SerializableMetadata>(entry_str) {
-                vec.push(serialized);
-            }
+        let entry = match line {
+            Ok(entry) => entry,
+            // Not valid UTF-8: a damaged entry, skipped on its own.
+            Err(err) if err.kind() == ErrorKind::InvalidData => continue,
+            // Anything else means the bucket could not be read (and would be
+            // reported again on every further poll).
+            Err(err) => return Err(err),
+        };
+        let entry_str = match entry.split('\t').collect::<Vec<&str>>()[..] {
+            [hash, entry_str] if hash_entry(entry_str) == hash => entry_str,
+            // Something's wrong with the entry. Abort.
+            _ => continue,
+        };
+        if let Ok(serialized) = serde_json::from_str::<SerializableMetadata>(entry_str) {
+            vec.push(serialized);
         }
     }
     Ok(vec)
